@@ -201,6 +201,25 @@ def run_doc_check(prop, tier, seed, driver_ok, *, n_quick, n_thorough, profiles,
                                   "\n" + harness_errors[0].get("tb", ""))
     compared = 0
     hyp = {}
+    heur_stats = None
+    if driver_ok:
+        # heuristic / mixed batches against Adeu.Doc.applyEdits (results carry a "heur" entry: edits + recorded run)
+        from . import heur
+
+        hs = [r for r in usable if r.get("heur")]
+        if hs:
+            hlines = [heur.driver_line(r["case"]["doc"], r["heur"]["edits"], r["heur"]["res"], r["heur"].get("author")) for r in hs]
+            houts = common.run_driver_parallel(hlines)
+            heur_stats = {"cases": len(hs), "compared": 0, "dropped_no_recorder": 0}
+            for r, ln, o in zip(hs, hlines, houts):
+                if ln.get("op") == "ping":
+                    heur_stats["dropped_no_recorder"] += 1
+                    continue
+                heur_stats["compared"] += 1
+                compared += 1
+                for d in heur.compare(r["case"]["doc"], r["heur"]["res"], o, r["heur"].get("author")):
+                    mism.append({"corr": d[0], "case": light_case(r["case"]) | {"doc": r["case"]["doc"], "edits": r["heur"]["edits"]},
+                                 "what": d[1]})
     if driver_ok and driver_line and compare:
         lines = [driver_line(r) for r in usable]
         outs = common.run_driver_parallel(lines)
@@ -222,6 +241,7 @@ def run_doc_check(prop, tier, seed, driver_ok, *, n_quick, n_thorough, profiles,
         "hypothesis_hits": hyp,
         "input_distribution": dist,
         "out_of_domain": dist["out_of_domain"],
+        "heuristic_correspondence": heur_stats,
         "assumptions": list(assumptions),
         **({"_results": usable} if keep_results else {}),
     }
